@@ -617,5 +617,5 @@ META = {
     "fd/child counts are run-time state and not decided.",
     "note": "Decides the listed structural clauses, not the behaviour. Exception edges are modelled only where the "
     "function's own try/with/finally makes them observable (DESIGN Appendix A).",
-    "more": 'Also decided: the descriptor handed to os.close is read inside the same locked block that clears the field (no check-then-act between concurrent closers). The overlay mapping a stage receives is created for that stage (module-level objects included). Whoever replaced sys.stdout / sys.stderr stores the saved stream back on every path on which something was installed (no \'only if I am still the installed stream\' test).',
+    "more": 'Also decided: the descriptor handed to os.close is read inside the same locked block that clears the field (no check-then-act between concurrent closers). The overlay mapping a stage receives is created for that stage (module-level objects included). Whoever replaced sys.stdout / sys.stderr stores the saved stream back on every path on which something was installed (no \'only if I am still the installed stream\' test). The stage classes wrap the descriptors they were given without owning them (closefd=False, no os.dup). A redirection of a process-wide stream entered on worker threads must count its users under a lock (known finding: ProcProxyThread.run saves and restores per thread).',
 }
